@@ -165,7 +165,8 @@ def _conform_filename(
         return filename, True
 
     with open(filename, "rt") as f:
-        parsed_ast = ast_parse(f.read(), filename=filename)
+        original_source = f.read()
+    parsed_ast = ast_parse(original_source, filename=filename)
     assert isinstance(parsed_ast, Module)
 
     original_node = find_in_ast(search, parsed_ast)
@@ -190,13 +191,13 @@ def _conform_filename(
         )
         rewrite_at_query.visit(parsed_ast)
 
-        print(
-            "modified" if rewrite_at_query.replaced else "unchanged", filename, sep="\t"
-        )
         if rewrite_at_query.replaced:
             emit.file(parsed_ast, filename, mode="wt", skip_black=False)
+            # Report what happened to the file, not to the tree
+            with open(filename, "rt") as f:
+                replaced = f.read() != original_source
 
-        replaced = rewrite_at_query.replaced
+        print("modified" if replaced else "unchanged", filename, sep="\t")
 
     return filename, replaced
 
